@@ -889,7 +889,7 @@ Proof. intros t p; unfold rho_json_first, all_entries. do 2 apply perm_skip. app
 Lemma wf_rho_obs_first : wf_order rho_obs_first.
 Proof.
   intros t p; unfold rho_obs_first, all_entries.
-  apply Permutation_sym. apply (Permutation_rev [EFile Obs; EFile Json; EDotDot; EDot]) || idtac.
+  apply Permutation_sym.
   change [EDot; EDotDot; EFile Obs; EFile Json] with (rev [EFile Json; EFile Obs; EDotDot; EDot]).
   eapply perm_trans; [apply Permutation_sym, Permutation_rev|]. apply perm_swap.
 Qed.
@@ -1814,12 +1814,12 @@ Proof.
     destruct e as [| |[]], p as [|[|[|p]]]; cbn; fa;
       try (split; [unfold nomention; simpl; intuition discriminate | reflexivity]);
       apply Forall_flat_map, Forall_forall; intros c1 _; fa;
-      split; [unfold nomention; simpl; intuition discriminate | reflexivity]. }
+      (split; [unfold nomention; simpl; intuition discriminate | reflexivity]). }
   assert (Fg : Forall (fun i => i_tid i = t /\ In FDirOpen (i_guard i)) (mid ++ [c0])).
   { unfold mid, c0. fa; try (split; [reflexivity | simpl; tauto]).
     apply Forall_flat_map, Forall_forall; intros e _. fa; try (split; [reflexivity | simpl; tauto]).
     destruct e as [| |[]], p as [|[|[|p]]]; cbn; fa; try (split; [reflexivity | simpl; tauto]);
-      apply Forall_flat_map, Forall_forall; intros c1 _; fa; split; [reflexivity | simpl; tauto]. }
+      apply Forall_flat_map, Forall_forall; intros c1 _; fa; (split; [reflexivity | simpl; tauto]). }
   assert (Hskip : forall s0 b0 b1 s2, m_fl s0 t FDirOpen = false -> R bufsz b0 (mid ++ [c0]) s0 b1 s2 -> s2 = s0).
   { intros s0 b0 b1 s2 Hf Hr. eapply (R_all_skipped bufsz (mid ++ [c0]) t s0); [|exact Hr].
     eapply Forall_impl; [|exact Fg]. intros a (Ta & Hin). split; auto. exists FDirOpen; auto. }
@@ -1844,3 +1844,132 @@ Proof.
       rewrite Z.eqb_refl. reflexivity.
   - with_R ltac:(fun Hr => rewrite (Hskip _ _ _ _ (Ffail fk) Hr)). apply Ffail.
 Qed.
+
+Lemma pass_copy_file bufsz rho th p f fs : wf_order rho ->
+  (p = 0%nat /\ f = Obs) \/ (p = 1%nat /\ f = Json) ->
+  files (apply_ops bufsz (pass_ops rho th p) fs) (PFile Fin (th_tid th) f) = Some (file_data th f).
+Proof.
+  intros W Hp.
+  destruct (order_split rho W (th_tid th) p (EFile f)) as (a & b & E & Na & Nb).
+  { destruct f; simpl; auto. }
+  assert (Rb : Forall ronly (flat_map (fun e => Readdir (PThread Tmp (th_tid th)) (Some e) :: pbody_ops th p e) b)).
+  { destruct Hp as [[-> ->]|[-> ->]]; [apply pass0_ronly | apply pass1_ronly]; auto. }
+  unfold pass_ops. rewrite E, flat_map_app. cbn [flat_map].
+  replace (pbody_ops th p (EFile f)) with (copy_ops (th_tid th) f (file_data th f))
+    by (destruct Hp as [[-> ->]|[-> ->]]; reflexivity).
+  rewrite !apply_ops_app.
+  match goal with |- files (apply_ops _ ?l2 (apply_ops _ ?l1 ?S)) ?q = _ =>
+    destruct (apply_ops_frame bufsz l2 (apply_ops bufsz l1 S) q) as [-> _]; [fa; leaf|];
+    destruct (apply_ops_frame bufsz l1 S q) as [-> _]; [apply ronly_Forall_nt; exact Rb|]
+  end.
+  rewrite apply_ops_cons. apply copy_result.
+Qed.
+
+Lemma pass1_nt_obs rho th : Forall (nt (PFile Fin (th_tid th) Obs)) (pass_ops rho th 1).
+Proof.
+  unfold pass_ops; fa; try leaf.
+  apply Forall_flat_map, Forall_forall; intros e _. fa; try leaf.
+  destruct e as [| |[]]; cbn [pbody_ops]; first [apply Forall_nil | apply copy_nt; discriminate].
+Qed.
+
+Lemma SB_ops_fin bufsz rho th fs : wf_order rho -> fin_ok (apply_ops bufsz (map i_op (SB rho th)) fs) th.
+Proof.
+  intros W. unfold SB. rewrite map_app, !map_pass_new, apply_ops_app. split.
+  - destruct (apply_ops_frame bufsz (pass_ops rho th 1) (apply_ops bufsz (pass_ops rho th 0) fs) (PFile Fin (th_tid th) Obs)) as [-> _];
+      [apply pass1_nt_obs|].
+    apply (pass_copy_file bufsz rho th 0 Obs); auto.
+  - apply (pass_copy_file bufsz rho th 1 Json); auto.
+Qed.
+
+Lemma tmp_thread_is rho th : thread_tr New TmpMode rho th =
+  SA TmpMode th ++ SB rho th
+  ++ (pass_new rho th 2 ++ [iwarn (th_tid th) (Rmdir (PThread Tmp (th_tid th)) [PFile Tmp (th_tid th) Obs; PFile Tmp (th_tid th) Json])]).
+Proof.
+  unfold thread_tr, thread_free_tr, SA, SB, relocate, relocate_new. cbv iota. rewrite <- !app_assoc. reflexivity.
+Qed.
+
+Lemma keeps_noremove t l f : Forall (fun i => keeps t (i_op i)) l -> ~ In (Remove (PFile Tmp t f)) (map i_op l).
+Proof.
+  intros H Hin. apply in_map_iff in Hin as (i & E & Hi). rewrite Forall_forall in H.
+  specialize (H i Hi f). rewrite E in H. simpl in H. specialize (H eq_refl). discriminate.
+Qed.
+
+Lemma tmp_thread_post bufsz rho th : wf_order rho -> forall b s b1 s1,
+  R bufsz b (thread_tr New TmpMode rho th) s b1 s1 -> m_dead s = false -> clean s (th_tid th) ->
+  thread_post th s s1.
+Proof.
+  intros W b s b1 s1 HR D [Hc Hf]. set (t := th_tid th) in *.
+  rewrite tmp_thread_is in HR. fold t in HR.
+  apply R_app in HR as (bA & sA & HRA & HR). apply R_app in HR as (bB & sB & HRB & HRC).
+  assert (LA : forall f, In (Remove (PFile Tmp t f)) (m_log sA) -> In (Remove (PFile Tmp t f)) (m_log s)).
+  { intros f Hin. destruct (R_log _ _ _ _ _ _ _ HRA Hin) as [H|H]; auto. exfalso; eapply SA_noremove; eauto. }
+  destruct (R_dielist bufsz _ (SA_dieish TmpMode th) _ _ _ _ HRA D) as [[DA _]|(DA & FA & FLA & _)].
+  { apply R_from_dead in HRB as [-> _]; auto. apply R_from_dead in HRC as [-> _]; auto.
+    split; [intros f Hin; left; auto | congruence]. }
+  destruct (SA_result bufsz TmpMode th (m_fs s)) as (A1 & A2 & A3 & A4); try apply Hc.
+  rewrite <- FA in A1, A2, A3, A4. simpl procloc in *. fold t in A1, A2, A3, A4.
+  assert (PA : pendnone t (m_fs sA)) by (intros [|]; auto).
+  destruct (SB_cons rho th) as (tl & ESB & FSB). fold t in ESB, FSB.
+  assert (DieB : Forall (fun i => i_die i = false) (SB rho th)).
+  { rewrite ESB. constructor; [reflexivity|]. eapply Forall_impl; [|exact FSB]. intros a (_ & Ha & _); exact Ha. }
+  assert (KB : Forall (fun i => keeps t (i_op i)) (SB rho th)).
+  { rewrite ESB. constructor; [intros f0 E0; simpl in E0; discriminate|].
+    eapply Forall_impl; [|exact FSB]. intros a (_ & _ & _ & Ha & _); exact Ha. }
+  assert (TidB : Forall (fun i => i_tid i = t) (SB rho th)).
+  { rewrite ESB. constructor; [reflexivity|]. eapply Forall_impl; [|exact FSB]. intros a (Ha & _); exact Ha. }
+  assert (DB : m_dead sB = false) by (eapply (R_nodie bufsz (SB rho th)); eauto).
+  destruct (R_keeps bufsz t _ KB _ _ _ _ HRB PA) as [PB FB].
+  assert (TB : tmp_ok (m_fs sB) th) by (split; fold t; rewrite FB; auto).
+  assert (LB : forall f, In (Remove (PFile Tmp t f)) (m_log sB) -> In (Remove (PFile Tmp t f)) (m_log s)).
+  { intros f Hin. destruct (R_log _ _ _ _ _ _ _ HRB Hin) as [H|H]; auto. exfalso; eapply keeps_noremove; eauto. }
+  assert (OB : m_fl sB t FDirOpen = false).
+  { pose proof HRB as HRB'. unfold SB in HRB'. apply R_app in HRB' as (b0 & s0 & H0 & H1).
+    assert (D0 : m_dead s0 = false).
+    { eapply (R_nodie bufsz (pass_new rho th 0)); [|exact H0|exact DA].
+      unfold SB in DieB. apply Forall_app in DieB; tauto. }
+    eapply (pass_dopen_false bufsz rho th 1); [exact H1|exact D0|].
+    eapply (pass_dopen_false bufsz rho th 0); [exact H0|exact DA|]. fold t. rewrite FLA; apply Hf. }
+  assert (MB : m_fl sB t FMoveOk = true -> fin_ok (m_fs sB) th).
+  { intros M. destruct (SB_dichotomy bufsz rho th _ _ _ _ HRB DA PA) as [->|H]; [|fold t in H; congruence].
+    destruct (gfine_sound bufsz t (SB rho th) T0 sA TidB) as (_ & E & _); auto.
+    - intros f Hg. destruct f; discriminate.
+    - destruct (gf_app T0 _ _ _ _ (pass0_gf rho th W) (pass1_gf rho th W)) as [G _]. exact G.
+    - rewrite E. apply SB_ops_fin; auto. }
+  set (SC := pass_new rho th 2 ++ [iwarn t (Rmdir (PThread Tmp t) [PFile Tmp t Obs; PFile Tmp t Json])]) in *.
+  destruct (m_fl sB t FMoveOk) eqn:M.
+  - (* the copies are complete: the removals cannot hurt *)
+    destruct (MB eq_refl) as [F1 F2].
+    assert (NC : forall f, Forall (fun i => nt (PFile Fin t f) (i_op i)) SC).
+    { intros f. apply Forall_map. unfold SC. rewrite map_app, map_pass_new.
+      apply Forall_app; split; [apply (pass2_nt rho th Fin) | simpl; fa; leaf]. }
+    assert (Fin1 : fin_ok (m_fs s1) th).
+    { split; fold t.
+      - destruct (R_frame bufsz SC _ (NC Obs) _ _ _ _ HRC) as [-> _]; auto.
+      - destruct (R_frame bufsz SC _ (NC Json) _ _ _ _ HRC) as [-> _]; auto. }
+    split; [intros f _; right; auto | intros _; left; auto].
+  - (* a copy failed: the remove pass is skipped altogether, the stream stays in the temporary directory *)
+    unfold SC in HRC. apply R_app in HRC as (b2 & s2 & HR2 & HR3).
+    assert (E2 : s2 = sB).
+    { eapply (R_all_skipped bufsz (pass_new rho th 2) t sB); [|exact HR2].
+      unfold pass_new. fold t. fa; try (split; [reflexivity|]; first [exists FMoveOk; simpl; auto; fail | exists FDirOpen; simpl; auto]).
+      apply Forall_flat_map, Forall_forall; intros e _. fa; try (split; [reflexivity | exists FDirOpen; simpl; auto]).
+      destruct e as [| |[]]; cbn; fa; split; try reflexivity; exists FDirOpen; simpl; auto. }
+    subst s2.
+    assert (N3 : forall f, Forall (fun i => nt (PFile Tmp t f) (i_op i)) [iwarn t (Rmdir (PThread Tmp t) [PFile Tmp t Obs; PFile Tmp t Json])]).
+    { intros f; fa; leaf. }
+    assert (T1 : tmp_ok (m_fs s1) th).
+    { destruct TB as [X Y]; split; fold t.
+      - destruct (R_frame bufsz _ _ (N3 Obs) _ _ _ _ HR3) as [-> _]; auto.
+      - destruct (R_frame bufsz _ _ (N3 Json) _ _ _ _ HR3) as [-> _]; auto. }
+    split; [|intros _; right; auto].
+    intros f Hin. left. destruct (R_log _ _ _ _ _ _ _ HR3 Hin) as [H|H]; auto.
+    simpl in H. destruct H as [H|[]]; discriminate.
+Qed.
+
+Theorem C10_tmpdir_all bufsz P rho : wf_program P -> wf_order rho -> C10_statement bufsz TmpMode P rho.
+Proof.
+  intros WP W. apply C10_from_threads; auto. intros th b s b1 s1 H D C. eapply tmp_thread_post; eauto.
+Qed.
+
+Theorem C10_all bufsz m P rho : wf_program P -> wf_order rho -> C10_statement bufsz m P rho.
+Proof. destruct m; [intros; apply C10_direct_all; auto | apply C10_tmpdir_all]. Qed.
